@@ -350,7 +350,10 @@ def run_e2e(ctx: Ctx, cases, n_model):
         ctx.streams_compared["e2e-model"] = ctx.streams_compared.get("e2e-model", 0) + 1
         mo = ks.decode(r, lc["xi"] is not None)
         if "err" in mo:
-            if mo["err"] == "err:singular" and lc["xi"] is not None:
+            if mo["err"] == "err:zeroScale":
+                # rescale_variance with an exact fit (q = 0): the model's explicit partial-operation branch; numpy gives inf/nan
+                ctx.count("e2e-model:zero_variance_scale_skipped")
+            elif mo["err"] == "err:singular" and lc["xi"] is not None:
                 ctx.count("e2e-model:unknown_init_singular_gls_skipped")
             else:
                 ctx.disagree("e2e-model", c, "ok", mo["err"])
